@@ -7,6 +7,8 @@ TInit == l = 1
 PROP == IOEnv.PROP
 Step == /\ l <= Len(Rec) /\ l' = l + 1
         /\ IF PROP = "C05" THEN Rec[l].outcome \in Accept(Rec[l].call)
+           ELSE IF PROP = "C20" THEN \* every SampledLFU constructor carries its budget and its sample size
+                ((Rec[l].outcome = "Ok" /\ Rec[l].call.c \in SampledCalls) => ShapeOK(Rec[l].call, Rec[l].shape))
            ELSE IF PROP = "C01" THEN \* (an Ok that the grid does not accept at all is C05's finding; Shape is defined for acceptable calls)
                 ((Rec[l].outcome = "Ok" /\ "Ok" \in Accept(Rec[l].call)) => ShapeOK(Rec[l].call, Rec[l].shape))
            ELSE \* C06 / C17: recency order of a cache built from an ordered source; and (C17) what a construction carries
